@@ -453,7 +453,7 @@ def cache_probes(xodr, opts, digest_hex, variants):
                 map_b = good_map[:i] + bytes([good_map[i] ^ var["xor"]]) + good_map[i + 1:]
             elif k == "map-append":
                 map_b = good_map + var["data"].encode()
-            elif k == "option":
+            elif k in ("option", "option-type"):
                 o = dict(var["opts"])
             elif k == "same":
                 pass
